@@ -200,13 +200,24 @@ def run(ctx):
     px = ParserX86ATT()
     n = (150 if ctx.tier == "quick" else 3000) * (3 if ctx.broken else 1)
     distinct = set()
-    for t in range(n):
-        m = S.random_model(rng, n_forms=rng.randint(2, 6), max_uops=rng.choice([1, 1, 2, 3]))
-        path = S.write_model(m, ctx.env.work, "r%d" % (t % 50))
+    # the recorded witness of the known finding `undercut-accumulates-per-uop` runs first, so that the finding is shown on every run
+    WITNESS = ({"ports": ['0', '1', '10', '11'],
+                "forms": [{"name": "zzcx", "pp": [[0.25, ['1', '11']], [1, ['11', '10']]], "tp": 0.625, "lat": 1},
+                          {"name": "zzdx", "pp": [[1.5, ['10', '0', '1']]], "tp": 1.5, "lat": 1},
+                          {"name": "zzex", "pp": [[21, ['10']], [0.5, ['11', '0', '10', '1']]], "tp": 10.75, "lat": 1}]},
+               ['zzex %r15, %r12', 'zzcx %rax, %rdx', 'zzex %r8, %rax', 'zzdx %r9, %r13', 'zzex %rax, %r15', 'zzex %r8, %rdx',
+                'zzex %r11, %r13', 'zzdx %rsi, %r12', 'zzex %r9, %rsi', 'zzex %rax, %r8', 'zzex %rcx, %r8', 'zzex %r13, %r12',
+                'zzex %r13, %r10', 'zzex %rbx, %r9', 'zzdx %r11, %rsi', 'zzcx %r9, %r12'])
+    for t in range(-1, n):
+        if t < 0:
+            m = WITNESS[0]
+        else:
+            m = S.random_model(rng, n_forms=rng.randint(2, 6), max_uops=rng.choice([1, 1, 2, 3]))
+        path = S.write_model(m, ctx.env.work, "r%d" % (t % 50) if t >= 0 else "witness")
         MachineModel._runtime_cache.pop(path, None)
         mm = MachineModel(path_to_yaml=path)
         sem = ArchSemantics(mm)
-        lines = S.random_kernel(rng, m, rng.randint(1, 8 if ctx.tier == "quick" else 20))
+        lines = S.random_kernel(rng, m, rng.randint(1, 8 if ctx.tier == "quick" else 20)) if t >= 0 else WITNESS[1]
         byname = {f["name"].upper(): f for f in m["forms"]}
         if all(byname[l.split()[0].upper()]["tp"] == 0.0 for l in lines):
             continue
@@ -235,6 +246,13 @@ def run(ctx):
         if once < lb - (step / 2 * n_uops + 0.005 + 1e-9):
             ctx.violation("optimised (once) bottleneck %.2f undercuts the optimum %.4f by more than the proven slack" % (once, lb),
                           dict(info, state="once", reported=once))
+        elif once < lb - (step + 0.005 + 1e-9):
+            # the property's own bound is ONE rounding step; what is proved (and what the balancer guarantees) is half a step per
+            # micro-op of the kernel.  Between the two lies a genuine, recorded defect of the balancer (known finding)
+            ctx.count("undercut_beyond_one_step_within_proven_slack")
+            ctx.violation("optimised (once) bottleneck %.2f undercuts the optimum %.4f by more than the rounding step %.2f (within the "
+                          "proven half step per micro-op: %d micro-ops)" % (once, lb, step, n_uops),
+                          dict(info, state="once", reported=once), key="undercut-accumulates-per-uop")
         try:
             sem.assign_optimal_throughput(kernel)
             twice = max(sem.get_throughput_sum(kernel))
